@@ -240,6 +240,12 @@ impl C03 {
 
 impl Check for C03 {
     fn id(&self) -> &'static str { "C03" }
+    fn miri_plan(&self, tier: Tier) -> Option<Vec<(u64, u64)>> {
+        if tier != Tier::Thorough {
+            return None;
+        }
+        Some((0 .. 16).map(|i| (i * 24, 24)).collect())
+    }
     fn rule(&self) -> String {
         "decoding: random Java (JSON with optional members, escapes, chat objects), Bedrock (6-12 fields), legacy 1.6 / 1.4 / beta 1.8 states encoded by independent models and decoded by the matching query (description compared as JSON). order: a reactive server speaking each of the 32 subsets of the five variants, with hostile non-answers (silence, empty close, garbage, truncation, refused connection) for the others; protocol::query, games::minecraft::query and query_legacy must return the first variant in documented order, labelled as such, AutoQuery iff none, and open connections in exactly that order. non-trivial = all oracles passed; distinct by stream bytes / (subset, non-answers, state)".into()
     }
